@@ -93,6 +93,15 @@ fn yuv_source_event<T: Pixel>(sh: &mut Shards, call: &str, c: &Cfg, st: u8, w: u
             if let Ok((repad, _, _)) = from_yuv(call, &yb) {
                 bits(&mut s, "repad", &repad);
             }
+            // third layout: tightly packed luma (Plane::from_slice, stride == width) with padded chroma planes
+            {
+                let px3: Vec<[u16; 3]> = (0..w * h).map(|i| [planes[0][i], planes[1][((i / w) >> c.ssy) * cw + ((i % w) >> c.ssx)], planes[2][((i / w) >> c.ssy) * cw + ((i % w) >> c.ssx)]]).collect();
+                if let Ok(yc) = Yuv::<T>::new(crate::frames::frame_packed_luma::<T>(&px3, w, h, c.ssx, c.ssy, pads_b), c.yuv_config()) {
+                    if let Ok((packed, _, _)) = from_yuv(call, &yc) {
+                        bits(&mut s, "packed", &packed);
+                    }
+                }
+            }
             // each pixel as a 1x1 4:4:4 image of the samples it may depend on
             let c1 = Cfg { ssx: 0, ssy: 0, ..*c };
             let mut one: Px = Vec::with_capacity(w * h);
